@@ -1,3 +1,4 @@
+import Treepath.Proofs.NaturalNext
 import Treepath.Proofs.Drive
 import Treepath.Proofs.Work
 import Treepath.Spec.Eval
@@ -135,5 +136,65 @@ theorem drain_is_definition (steps : Array (Step J)) (src : Src J) (hq : Quiet s
 /-- non-vacuity of the budget premise: a three-element document under `$[*]` -/
 example : 6 * exams [Step.idxWc] (.root (.arr [.int 1, .int 2, .int 3])) + 3 < Generated.loopBudget := by decide
 
+
+/-! ### every call ends, on any structure -/
+
+section anystructure
+variable {α : Type} (view : α → View α) (steps : Array (Step α)) (src : Src α)
+
+/-- the states an iterator can be in: those the bisimulation relates to a well-formed state of
+the stack machine -/
+def Reachable (st : St α) : Prop := ∃ as, R steps st as ∧ Good steps as
+
+theorem fresh_is_reachable : Reachable steps (freshIter : St α) := ⟨.init, .init _ rfl, trivial⟩
+
+theorem anext_good (limit : Nat) (as : AS α) (hg : Good steps as) : Good steps (anext view steps src limit as).1 := by
+  induction limit generalizing as with
+  | zero => exact hg
+  | succ limit ih =>
+    have h1 := (astep_good view steps src as hg).1
+    unfold anext
+    rcases hb : astep view steps src as with ⟨t, ev, sg⟩
+    rw [hb] at h1
+    cases sg with
+    | none => simp only; split; exact h1; exact ih t h1
+    | result n => simp only; split <;> exact h1
+    | stop => exact h1
+    | raised e => exact h1
+    | bug m => exact h1
+
+/-- a reachable state stays reachable across `next()` — whatever the call's outcome -/
+theorem next_keeps_reachable (limit : Nat) (st : St α) (h : Reachable steps st) :
+    Reachable steps (next view steps src limit st).1 := by
+  obtain ⟨as, hR, hg⟩ := h
+  exact ⟨_, (next_anext view steps src limit st as hR).2, anext_good view steps src limit as hg⟩
+
+/-- **a `next()` call never hangs and never falls off the state machine, on any structure** —
+finite tree, object store or cyclic graph: from every reachable state it ends, after at most
+`limit` actions (it is defined by structural recursion on the budget), in a result,
+`StopIteration`, or an exception — the predicate's `TraversingError`, or `InfiniteLoopDetected`
+when the budget ran out; and (`loop_detected_means_work`) the budget only runs out while match
+attempts are being made -/
+theorem every_next_ends_in_an_outcome (limit : Nat) (st : St α) (h : Reachable steps st) :
+    (∃ n, (next view steps src limit st).2.2 = .result n) ∨ (next view steps src limit st).2.2 = .stop ∨
+    (∃ e, (next view steps src limit st).2.2 = .raised e) := by
+  obtain ⟨as, hR, hg⟩ := h
+  rcases hn : next view steps src limit st with ⟨st', evs, sig⟩
+  cases sig with
+  | result n => exact .inl ⟨n, rfl⟩
+  | stop => exact .inr (.inl rfl)
+  | raised e => exact .inr (.inr ⟨e, rfl⟩)
+  | none => exact absurd hn (next_not_none view steps src limit st st' evs)
+  | bug m => exact absurd hn (next_no_bug view steps src limit st as hR hg st' evs m)
+
+/-- … hence so does every call of a whole history of `next()` calls on one iterator -/
+theorem every_call_of_a_history_ends (limit : Nat) : ∀ (k : Nat) (st : St α), Reachable steps st →
+    Reachable steps (Nat.rec st (fun _ s => (next view steps src limit s).1) k) := by
+  intro k
+  induction k with
+  | zero => intro st h; exact h
+  | succ k ih => intro st h; exact next_keeps_reachable view steps src limit _ (ih st h)
+
+end anystructure
 
 end Treepath.C20
